@@ -202,6 +202,10 @@ func cleanup() {
 
 // runWorker runs one worker process over [start,start+count) and returns its results.
 func runWorker(spec Spec, timeout time.Duration) (res []Result, exit int, stderr string) {
+	return runWorkerProcs(spec, timeout, 2)
+}
+
+func runWorkerProcs(spec Spec, timeout time.Duration, procs int) (res []Result, exit int, stderr string) {
 	f, _ := os.CreateTemp(scratch, "spec-*.json")
 	spec.Out = f.Name() + ".out"
 	b, _ := json.Marshal(spec)
@@ -210,7 +214,7 @@ func runWorker(spec Spec, timeout time.Duration) (res []Result, exit int, stderr
 	defer os.Remove(f.Name())
 	defer os.Remove(spec.Out)
 	c := exec.Command(binary, "-test.run", "^TestWorker$", "-test.timeout", "0")
-	c.Env = append(env(), "VERIF_SPEC="+f.Name(), "GOMAXPROCS=2")
+	c.Env = append(env(), "VERIF_SPEC="+f.Name(), fmt.Sprintf("GOMAXPROCS=%d", procs))
 	var eb strings.Builder
 	c.Stderr = &eb
 	c.Stdout = &eb
@@ -532,8 +536,9 @@ func runScenario(a *agg, name, tier string, seed uint64, budget time.Duration) {
 				}
 				r := res[0]
 				if idx%40 == 0 && r.Infra == "" {
-					// determinism self-check: the same seed in another process must give the same trace
-					res2, _, _ := runWorker(spec, 2*time.Minute)
+					// determinism self-check: the same seed in another process, with another number of
+					// OS threads, must give the same trace
+					res2, _, _ := runWorkerProcs(spec, 2*time.Minute, []int{1, 4, 16}[(idx/40)%3])
 					a.mu.Lock()
 					a.rechecked++
 					a.mu.Unlock()
@@ -572,6 +577,9 @@ func tryReplay(rp *Replay) (*Result, error) {
 	f.Close()
 	defer os.Remove(f.Name())
 	res, exit, stderr := runWorker(Spec{Replay: f.Name(), Scenario: rp.Scenario}, 90*time.Second)
+	if os.Getenv("VERIF_DEBUG") != "" {
+		fmt.Fprint(os.Stderr, stderr)
+	}
 	if len(res) != 1 {
 		return nil, fmt.Errorf("replay produced %d results (exit %d): %s", len(res), exit, tail(stderr, 1500))
 	}
